@@ -793,6 +793,10 @@ def pair(repo: Repo) -> List[Ob]:
                 obs.append(bad("PAIR", ce, "envelope-member-order", P, n, f"indices[{sl}] = {val}: the member stored at that tensor position is another one"))
     if idx_ok >= 2:
         obs.append(ok("PAIR", ce, "envelope-member-order", P, ce.node, "members of an absorbed envelope are listed at their tensor positions"))
+    elif not any(o.rule == "PAIR" and o.key == "envelope-member-order" and o.status == "violation" for o in obs):
+        obs.append(bad("PAIR", ce, "envelope-member-order", P, ce.node,
+                       "the members of an absorbed envelope are no longer recorded at their tensor positions (`indices[<member>.index] = <member>`): "
+                       "an envelope stored as (polarization, fock) is listed as (fock, polarization)"))
     # Envelope.reorder: transposition and index swap in the same branch
     ro = repo.func("Envelope.reorder")
     for c in [n for n in walk_no_nested(ro.node) if isinstance(n, ast.If) and "expansion_level" in src(n.test)]:
